@@ -33,6 +33,9 @@ var pipelines = []Pipeline{
 	{Name: "eval-sigma", GroupBy: "'h'", Dims: []string{"h"}, Body: "|eval(lambda: sigma(\"v\")).as('s')"},
 	{Name: "eval-count", GroupBy: "'h'", Dims: []string{"h"}, Body: "|eval(lambda: count()).as('c')"},
 	{Name: "where-count", GroupBy: "'h'", Dims: []string{"h"}, Body: "|where(lambda: count() > 1)"},
+	// stateful functions inside the arguments of other calls
+	{Name: "eval-nested-count", GroupBy: "'h'", Dims: []string{"h"}, Body: "|eval(lambda: float(count()) + abs(sigma(float(\"v\")))).as('c')"},
+	{Name: "where-nested-count", GroupBy: "'h'", Dims: []string{"h"}, Body: "|where(lambda: if(float(count()) > 1.0, TRUE, FALSE))"},
 	{Name: "eval-spread", GroupBy: "'h'", Dims: []string{"h"}, Body: "|eval(lambda: spread(\"v\")).as('s')"},
 	{Name: "stateCount", GroupBy: "'h'", Dims: []string{"h"}, Body: "|stateCount(lambda: \"v\" > 1)"},
 	{Name: "stateDuration", GroupBy: "'h'", Dims: []string{"h"}, Body: "|stateDuration(lambda: \"v\" > 1).unit(1s)"},
